@@ -1,5 +1,7 @@
 import Astral.Model.Proto
 import Astral.Model.Julian
+import Astral.Model.Sun
+import Std.Data.HashMap
 open Astral Astral.Proto
 
 abbrev F := Float
@@ -11,6 +13,142 @@ def exc {β} (f : β → String) : Except Err β → String
 def hms (x : Int × Int × Int) : String := s!"{tokI x.1} {tokI x.2.1} {tokI x.2.2}"
 
 def calOf (i : Int) : CalendarKind := if i == 2 then .julian else .gregorian
+
+/-- step function from a sorted table of (start, offset); the first entry covers -∞ -/
+def stepLookup (tab : Array (Int × Int)) (t : Int) : Int := Id.run do
+  if tab.size == 0 then return 0
+  let mut lo := 0
+  let mut hi := tab.size
+  -- invariant: tab[lo].1 ≤ t (or lo = 0), tab[hi].1 > t (or hi = size)
+  while lo + 1 < hi do
+    let mid := (lo + hi) / 2
+    if tab[mid]!.1 ≤ t then lo := mid else hi := mid
+  return tab[lo]!.2
+
+abbrev Zones := Std.HashMap Int TZ
+
+def parsePairs (a : Array String) (start n : Nat) : Option (Array (Int × Int)) := do
+  let mut out : Array (Int × Int) := #[]
+  for i in [0:n] do
+    let t ← getI a[start + 2 * i]!
+    let o ← getI a[start + 2 * i + 1]!
+    out := out.push (t, o)
+  return out
+
+/-- `zone I<id> I<k> (I<t> I<off>)*k I<m> (I<w> I<off>)*m` -/
+def parseZone (a : Array String) : Option (Int × TZ) := do
+  let id ← getI a[0]!
+  let k ← getI a[1]!
+  let u ← parsePairs a 2 k.toNat
+  let m ← getI a[2 + 2 * k.toNat]!
+  let l ← parsePairs a (3 + 2 * k.toNat) m.toNat
+  return (id, ⟨stepLookup u, stepLookup l⟩)
+
+def getObs (a : Array String) (i : Nat) : Option (Obs F) := do
+  let lat ← getF a[i]!; let lon ← getF a[i+1]!
+  let k ← getI a[i+2]!; let x ← getF a[i+3]!; let y ← getF a[i+4]!
+  return ⟨lat, lon, if k == 0 then .flt x else .tup x y⟩
+
+def getDir (t : String) : Option Dir := do
+  let i ← getI t
+  return (if i == 1 then .rising else .setting)
+
+def getZ (zs : Zones) (t : String) : Option TZ := do
+  let i ← getI t
+  zs.get? i
+
+def getOff (t : String) : Option (Option Int) :=
+  if t == "N" then some none else (getI t).map some
+
+def pair (x : Int × Int) : String := s!"{tokI x.1} {tokI x.2}"
+def fpair (x : F × F) : String := s!"{tokF x.1} {tokF x.2}"
+
+def handleSun (zs : Zones) (fn : String) (a : Array String) : Option String := do
+  match fn with
+  | "refraction_at_zenith" => let x ← getF a[0]!; pure (tokF (refractionAtZenith x))
+  | "geom_mean_long_sun" => let x ← getF a[0]!; pure (tokF (geomMeanLongSun x))
+  | "geom_mean_anomaly_sun" => let x ← getF a[0]!; pure (tokF (geomMeanAnomalySun x))
+  | "eccentric_location_earth_orbit" => let x ← getF a[0]!; pure (tokF (eccentricLocationEarthOrbit x))
+  | "sun_eq_of_center" => let x ← getF a[0]!; pure (tokF (sunEqOfCenter x))
+  | "sun_true_long" => let x ← getF a[0]!; pure (tokF (sunTrueLong x))
+  | "sun_true_anomoly" => let x ← getF a[0]!; pure (tokF (sunTrueAnomaly x))
+  | "sun_rad_vector" => let x ← getF a[0]!; pure (tokF (sunRadVector x))
+  | "sun_apparent_long" => let x ← getF a[0]!; pure (tokF (sunApparentLong x))
+  | "mean_obliquity_of_ecliptic" => let x ← getF a[0]!; pure (tokF (meanObliquityOfEcliptic x))
+  | "obliquity_correction" => let x ← getF a[0]!; pure (tokF (obliquityCorrection x))
+  | "sun_rt_ascension" => let x ← getF a[0]!; pure (tokF (sunRtAscension x))
+  | "sun_declination" => let x ← getF a[0]!; pure (tokF (sunDeclination x))
+  | "var_y" => let x ← getF a[0]!; pure (tokF (varY x))
+  | "eq_of_time" => let x ← getF a[0]!; pure (tokF (eqOfTime x))
+  | "hour_angle" =>
+      let l ← getF a[0]!; let d ← getF a[1]!; let z ← getF a[2]!; let dir ← getDir a[3]!
+      pure (exc tokF (hourAngle l d z dir))
+  | "adjust_to_horizon" => let x ← getF a[0]!; pure (tokF (adjustToHorizon x))
+  | "adjust_to_obscuring_feature" =>
+      let x ← getF a[0]!; let y ← getF a[1]!
+      pure (exc tokF (adjustToObscuringFeature x y))
+  | "time_of_transit" =>
+      let o ← getObs a 0; let d ← getI a[5]!; let z ← getF a[6]!; let dir ← getDir a[7]!
+      let r ← getB a[8]!
+      pure (exc tokI (timeOfTransit o d z dir r))
+  | "time_at_elevation" =>
+      let o ← getObs a 0; let e ← getF a[5]!; let d ← getI a[6]!; let dir ← getDir a[7]!
+      let tz ← getZ zs a[8]!; let r ← getB a[9]!
+      pure (exc tokI (timeAtElevation o e d dir tz r))
+  | "noon" =>
+      let o ← getObs a 0; let d ← getI a[5]!; let tz ← getZ zs a[6]!
+      pure (exc tokI (noon o d tz))
+  | "midnight" =>
+      let o ← getObs a 0; let d ← getI a[5]!; let tz ← getZ zs a[6]!
+      pure (exc tokI (midnight o d tz))
+  | "zenith_and_azimuth" =>
+      let o ← getObs a 0; let w ← getI a[5]!; let off ← getOff a[6]!; let r ← getB a[7]!
+      pure (fpair (zenithAndAzimuth o w off r))
+  | "zenith" =>
+      let o ← getObs a 0; let w ← getI a[5]!; let off ← getOff a[6]!; let r ← getB a[7]!
+      pure (tokF (sunZenith o w off r))
+  | "azimuth" =>
+      let o ← getObs a 0; let w ← getI a[5]!; let off ← getOff a[6]!
+      pure (tokF (sunAzimuth o w off))
+  | "elevation" =>
+      let o ← getObs a 0; let w ← getI a[5]!; let off ← getOff a[6]!; let r ← getB a[7]!
+      pure (tokF (sunElevation o w off r))
+  | "dawn" =>
+      let o ← getObs a 0; let d ← getI a[5]!; let dep ← getF a[6]!; let tz ← getZ zs a[7]!
+      pure (exc tokI (dawn o d dep tz))
+  | "dusk" =>
+      let o ← getObs a 0; let d ← getI a[5]!; let dep ← getF a[6]!; let tz ← getZ zs a[7]!
+      pure (exc tokI (dusk o d dep tz))
+  | "sunrise" =>
+      let o ← getObs a 0; let d ← getI a[5]!; let tz ← getZ zs a[6]!
+      pure (exc tokI (sunrise o d tz))
+  | "sunset" =>
+      let o ← getObs a 0; let d ← getI a[5]!; let tz ← getZ zs a[6]!
+      pure (exc tokI (sunset o d tz))
+  | "daylight" =>
+      let o ← getObs a 0; let d ← getI a[5]!; let tz ← getZ zs a[6]!
+      pure (exc pair (daylight o d tz))
+  | "night" =>
+      let o ← getObs a 0; let d ← getI a[5]!; let tz ← getZ zs a[6]!
+      pure (exc pair (night o d tz))
+  | "twilight" =>
+      let o ← getObs a 0; let d ← getI a[5]!; let dir ← getDir a[6]!; let tz ← getZ zs a[7]!
+      pure (exc pair (twilight o d dir tz))
+  | "golden_hour" =>
+      let o ← getObs a 0; let d ← getI a[5]!; let dir ← getDir a[6]!; let tz ← getZ zs a[7]!
+      pure (exc pair (goldenHour o d dir tz))
+  | "blue_hour" =>
+      let o ← getObs a 0; let d ← getI a[5]!; let dir ← getDir a[6]!; let tz ← getZ zs a[7]!
+      pure (exc pair (blueHour o d dir tz))
+  | "rahukaalam" =>
+      let o ← getObs a 0; let d ← getI a[5]!; let day ← getB a[6]!; let tz ← getZ zs a[7]!
+      pure (exc pair (rahukaalam o d day tz))
+  | "sun" =>
+      let o ← getObs a 0; let d ← getI a[5]!; let dep ← getF a[6]!; let tz ← getZ zs a[7]!
+      pure (exc (fun (s : SunTimes) =>
+        s!"{tokI s.dawn} {tokI s.sunrise} {tokI s.noon} {tokI s.sunset} {tokI s.dusk}")
+        (sunBundle o d dep tz))
+  | _ => none
 
 def handle (fn : String) (a : Array String) : Option String := do
   match fn with
@@ -49,26 +187,32 @@ def handle (fn : String) (a : Array String) : Option String := do
   | "weekday" => let d ← getI a[0]!; pure (tokI (weekday d))
   | _ => none
 
-def processLine (line : String) : String :=
+def processLine (zs : Zones) (line : String) : Zones × String :=
   let toks := (line.trimAscii.toString.splitOn " ").filter (· ≠ "")
   match toks with
-  | [] => ""
+  | [] => (zs, "")
   | fn :: args =>
     let a := args.toArray
     -- pad so that a[i]! on a short line yields a token no getter accepts
     let a := a ++ Array.replicate 16 "?"
-    match handle fn a with
-    | some r => r
-    | none => tokE .badRequest
+    if fn == "zone" then
+      match parseZone a with
+      | some (id, tz) => (zs.insert id tz, "ok")
+      | none => (zs, tokE .badRequest)
+    else
+      match (handle fn a <|> handleSun zs fn a) with
+      | some r => (zs, r)
+      | none => (zs, tokE .badRequest)
 
-partial def loop (h : IO.FS.Stream) (out : IO.FS.Stream) : IO Unit := do
+partial def loop (h : IO.FS.Stream) (out : IO.FS.Stream) (zs : Zones) : IO Unit := do
   let line ← h.getLine
   if line.isEmpty then return ()
-  out.putStrLn (processLine line)
-  loop h out
+  let (zs, r) := processLine zs line
+  out.putStrLn r
+  loop h out zs
 
 def main : IO Unit := do
   let stdin ← IO.getStdin
   let stdout ← IO.getStdout
-  loop stdin stdout
+  loop stdin stdout {}
   stdout.flush
